@@ -183,6 +183,89 @@ fn list_in_some_order<T: fmt::Debug>(shown: &str, items: &[T], pretty: bool) -> 
     rec(shown, items, pretty, &mut Vec::new(), &mut vec![false; items.len()])
 }
 
+/// Zero-sized keys and values: `Map<(), (), N>` / `Set<(), N>` hold at most one entry, whose address range
+/// is empty - pointer-range loops see nothing there. Containers and every iterator kind, before and after
+/// the entry was yielded.
+fn zst_formatting<const N: usize>(cx: &mut Ctx) {
+    if N == 0 {
+        return;
+    }
+    cx.here.op = "Debug/Display of containers and iterators with zero-sized keys and values".into();
+    let mut m: Map<(), (), N> = Map::new();
+    m.insert((), ());
+    let mut s: Set<(), N> = Set::new();
+    s.insert(());
+    macro_rules! same {
+        ($what:expr, $got:expr, $want:expr) => {{
+            let (g, w) = ($got, $want);
+            cx.check(PM, g == w, || format!("{} (zero-sized elements): rendered {g:?}, expected {w:?}", $what));
+        }};
+    }
+    same!("Map {:?}", format!("{m:?}"), "{(): ()}".to_string());
+    same!("Map {}", format!("{:?}", format!("{m:#?}").contains("()")), "true".to_string());
+    same!("Set {:?}", format!("{s:?}"), "{()}".to_string());
+    for j in 0..=1usize {
+        let rest_kv: Vec<((), ())> = if j == 0 { vec![((), ())] } else { vec![] };
+        let rest_k: Vec<()> = if j == 0 { vec![()] } else { vec![] };
+        let mut it = m.iter();
+        let mut ks = m.keys();
+        let mut vs = m.values();
+        let mut si = s.iter();
+        for _ in 0..j {
+            it.next();
+            ks.next();
+            vs.next();
+            si.next();
+        }
+        same!(format!("Iter after {j}"), format!("{it:?}"), format!("{:?}", rest_kv.iter().map(|(a, b)| (a, b)).collect::<Vec<_>>()));
+        same!(format!("Keys after {j}"), format!("{ks:?}"), format!("{:?}", rest_k.iter().collect::<Vec<_>>()));
+        same!(format!("Values after {j}"), format!("{vs:?}"), format!("{:?}", rest_k.iter().collect::<Vec<_>>()));
+        let mut m2 = m.clone();
+        let mut im = m2.iter_mut();
+        for _ in 0..j {
+            im.next();
+        }
+        same!(format!("IterMut after {j}"), format!("{im:?}"), format!("{:?}", rest_kv.iter().map(|(a, b)| (a, b)).collect::<Vec<_>>()));
+        drop(im);
+        let mut vm = m2.values_mut();
+        for _ in 0..j {
+            vm.next();
+        }
+        same!(format!("ValuesMut after {j}"), format!("{vm:?}"), format!("{:?}", rest_k.iter().collect::<Vec<_>>()));
+        drop(vm);
+        let mut ii = m.clone().into_iter();
+        let mut ik = m.clone().into_keys();
+        let mut iv = m.clone().into_values();
+        let mut dr = m2.drain();
+        for _ in 0..j {
+            ii.next();
+            ik.next();
+            iv.next();
+            dr.next();
+        }
+        same!(format!("IntoIter after {j}"), format!("{ii:?}"), format!("{:?}", rest_kv.iter().map(|(a, b)| (a, b)).collect::<Vec<_>>()));
+        same!(format!("IntoKeys after {j}"), format!("{ik:?}"), format!("{:?}", rest_k.iter().collect::<Vec<_>>()));
+        same!(format!("IntoValues after {j}"), format!("{iv:?}"), format!("{:?}", rest_k.iter().collect::<Vec<_>>()));
+        same!(format!("Drain after {j}"), format!("{dr:?}"), format!("{:?}", rest_kv.iter().map(|(a, b)| (a, b)).collect::<Vec<_>>()));
+        drop(dr);
+        let other: Set<(), N> = Set::new();
+        let mut d = s.difference(&other);
+        let mut u = s.union(&other);
+        let mut x = s.symmetric_difference(&other);
+        let mut n = s.intersection(&s);
+        for _ in 0..j {
+            d.next();
+            u.next();
+            x.next();
+            n.next();
+        }
+        same!(format!("Difference after {j}"), format!("{d:?}"), format!("{:?}", rest_k.iter().collect::<Vec<_>>()));
+        same!(format!("Union after {j}"), format!("{u:?}"), format!("{:?}", rest_k.iter().collect::<Vec<_>>()));
+        same!(format!("SymmetricDifference after {j}"), format!("{x:?}"), format!("{:?}", rest_k.iter().collect::<Vec<_>>()));
+        same!(format!("Intersection after {j}"), format!("{n:?}"), format!("{:?}", rest_k.iter().collect::<Vec<_>>()));
+    }
+}
+
 fn structured<const N: usize>(order: &[(DK, DV)], cx: &mut Ctx) {
     type K2 = (u8, u8);
     type V2 = Option<(u8, u8)>;
@@ -342,6 +425,9 @@ fn per_state<const N: usize>(sys: &MapSys<Kx, Vx, N>, path: &[u32], cx: &mut Ctx
     }
     let order: Vec<(DK, DV)> = entries.iter().map(|(k, v)| (dk(k), DV(v.v))).collect();
     structured::<N>(&order, cx);
+    if order.is_empty() {
+        zst_formatting::<N>(cx);
+    }
     let c0 = pl::counts();
     cx.here.op = "Map Debug/Display".into();
     cx.evaluations += 1;
